@@ -106,6 +106,8 @@ type c20Target struct {
 	// BreakBody: a failing probe is not a refused connection but an answer with status 200 whose body breaks off
 	// after a part of the samples (the connection is lost mid-body)
 	BreakBody bool `json:"breakBody,omitempty"`
+	// CType: Content-Type of the target's answers: "" = text/plain, "none" = no header, otherwise as given
+	CType string `json:"ctype,omitempty"`
 }
 
 // brokenBody delivers data and then fails.
@@ -207,7 +209,13 @@ func (f *farm) RoundTrip(r *http.Request) (*http.Response, error) {
 	for i := 0; i < sp.Dropped; i++ {
 		fmt.Fprintf(&b, "drop_me{i=\"%d\"} 1\n", i)
 	}
-	return &http.Response{StatusCode: 200, Status: "200 OK", Body: ioutil.NopCloser(&b), Header: http.Header{"Content-Type": []string{"text/plain"}}, Request: r}, nil
+	hdr := http.Header{"Content-Type": []string{"text/plain"}}
+	if sp.CType == "none" {
+		hdr = http.Header{}
+	} else if sp.CType != "" {
+		hdr = http.Header{"Content-Type": []string{sp.CType}}
+	}
+	return &http.Response{StatusCode: 200, Status: "200 OK", Body: ioutil.NopCloser(&b), Header: hdr, Request: r}, nil
 }
 
 func recC20() *vkit.Recorder {
@@ -574,7 +582,8 @@ func genC20(t *rapid.T) *c20Case {
 		c.Targets = append(c.Targets, c20Target{Hash: uint64(i + 1), Job: rapid.SampledFrom([]string{"ja", "ja", "jb"}).Draw(t, l+"-job"),
 			FailFirst: rapid.SampledFrom([]int{0, 0, 1, 2, 3, -1}).Draw(t, l+"-fail"), Samples: rapid.IntRange(0, 9).Draw(t, l+"-samples"),
 			Dropped: rapid.IntRange(0, 5).Draw(t, l+"-dropped"), HoldMs: rapid.IntRange(1, 3).Draw(t, l+"-hold"),
-			BreakBody: rapid.IntRange(0, 2).Draw(t, l+"-breakBody") == 0})
+			BreakBody: rapid.IntRange(0, 2).Draw(t, l+"-breakBody") == 0,
+			CType:     rapid.SampledFrom([]string{"", "", "none", "text/plain; version=0.0.4; charset=utf-8", "application/octet-stream"}).Draw(t, l+"-ctype")})
 	}
 	ne := rapid.IntRange(1, 14).Draw(t, "nEvents")
 	for i := 0; i < ne; i++ {
